@@ -165,7 +165,7 @@ func (d *driver) suitePrograms() {
 // suiteReaders: exhaustive small enumeration of Read capacity patterns against chunk-length vectors,
 // driving the real reader directly.  Lengths/capacities in bytes; a "str" value of payload p has p+3 bytes.
 func (d *driver) suiteReaders() {
-	lens := []int{2, 5, 12} // num (1 digit), str payload 2, str payload 9
+	lens := []int{2, 5, 12}    // num (1 digit), str payload 2, str payload 9
 	caps := []int{1, 4, 5, 40} // below / inside / equal to / beyond the chunk lengths
 	maxChunks := 3
 	patLen := 2
@@ -200,21 +200,16 @@ func (d *driver) suiteReaders() {
 		}
 	}
 	recp(nil)
-	// four vectors per store (keys k0..k3)
-	for base := 0; base < len(vectors); base += 4 {
-		t := d.newTrace(fmt.Sprintf("readers-%d", base/4))
+	// three vectors per store (keys k0..k2): at most 9 values, so that ids stay one digit long
+	for base := 0; base < len(vectors); base += 3 {
+		t := d.newTrace(fmt.Sprintf("readers-%d", base/3))
 		n := 0
-		for j := 0; j < 4 && base+j < len(vectors); j++ {
+		for j := 0; j < 3 && base+j < len(vectors); j++ {
 			var vs []valSpec
 			for _, l := range vectors[base+j] {
 				switch l {
 				case 2:
-					// one digit + newline: ids 0..9 only; fall back to the shortest string otherwise
-					if t.nextID < 10 {
-						vs = append(vs, t.val("num", 1))
-					} else {
-						vs = append(vs, t.val("str", 2))
-					}
+					vs = append(vs, t.val("num", 1)) // one digit + newline
 				default:
 					vs = append(vs, t.val("str", l-3))
 				}
@@ -226,7 +221,19 @@ func (d *driver) suiteReaders() {
 		t.observe()
 		for j := 0; j < n; j++ {
 			for _, p := range patterns {
-				t.readDirect(j%3, fmt.Sprintf("k%d", j), 0, p, 40)
+				// stopping rule from the inputs alone: a reader that returns min(capacity, rest of chunk) per call
+				// cannot need more calls than this (a reader that re-delivers chunks would otherwise never stop)
+				minCap := p[0]
+				for _, c := range p {
+					if c < minCap {
+						minCap = c
+					}
+				}
+				budget := 2
+				for _, l := range vectors[base+j] {
+					budget += (l + minCap - 1) / minCap
+				}
+				t.readDirect(j%3, fmt.Sprintf("k%d", j), 0, p, budget)
 			}
 		}
 		t.commit()
